@@ -163,6 +163,27 @@ func (x *Exec) makeMap(fr *Frame, st *State, ins *ssa.MakeMap) error {
 	if err != nil {
 		return err
 	}
+	if ins.Reserve != nil && x.allocBound != nil {
+		// make(map, hint) pre-allocates buckets for `hint` entries (the runtime only ignores hints above 2^48 bytes)
+		if rv, err := x.tv(fr, ins.Reserve); err == nil {
+			if _, isConst := rv.T.Const(); !isConst {
+				_, rs, _ := isInteger(ins.Reserve.Type())
+				hint := Resize(rv.T, 64, rs)
+				if rs {
+					hint = Ite(bvCmp("bvslt", hint, BVInt(0, 64)), BVInt(0, 64), hint)
+				}
+				env := x.newEnv(x.Top, nil, x.topContract, x.topArgs, st, st)
+				bound, err := env.intArg(x.allocBound.Expr, 128)
+				if err != nil {
+					return fmt.Errorf("opt alloc: %v", err)
+				}
+				sizes := types.SizesFor("gc", "amd64")
+				sz := sizes.Sizeof(mr.KT) + sizes.Sizeof(mr.VT) + 8
+				bytesT := bvBin("bvmul", ZeroExt(hint, 128), BVInt(sz, 128))
+				x.obligation(fr, ins, "allocbound", st.PC, bvCmp("bvule", bytesT, bound), fmt.Sprintf("bytes reserved by the map size hint (about %d per entry) exceed the declared bound %s", sz, x.allocBound.Text))
+			}
+		}
+	}
 	ref := st.Brk
 	st.Brk = x.C.Name("brk", bvBin("bvadd", st.Brk, BVInt(1, 32)))
 	x.C.Assume(bvCmp("bvult", ref, BVUint(0xfffffff0, 32)), "allocator does not exhaust 2^32 references")
@@ -218,6 +239,7 @@ func (x *Exec) mapSet(st *State, mt types.Type, m Term, key Term, val Term) erro
 	l := x.heapGet(st, mr.L, mr.LS)
 	dm := Select(d, m)
 	was := Select(dm, k)
+	x.noteWrite(m)
 	x.heapSet(st, mr.L, Store(l, m, Ite(was, Select(l, m), bvBin("bvadd", Select(l, m), BVInt(1, 64)))))
 	x.heapSet(st, mr.D, Store(d, m, Store(dm, k, TTrue)))
 	x.heapSet(st, mr.V, Store(v, m, Store(Select(v, m), k, val)))
@@ -238,6 +260,7 @@ func (x *Exec) mapDelete(st *State, mt types.Type, m Term, key Term) error {
 	dm := Select(d, m)
 	was := And(Not(Eq(m, BVInt(0, 32))), Select(dm, k))
 	// delete on nil map is a no-op
+	x.noteWrite(m)
 	x.heapSet(st, mr.L, Ite(was, Store(l, m, bvBin("bvsub", Select(l, m), BVInt(1, 64))), l))
 	x.heapSet(st, mr.D, Ite(was, Store(d, m, Store(dm, k, TFalse)), d))
 	return nil
